@@ -37,6 +37,11 @@ def mailbox_programs(tier):
     add('ctx_stop_with_backlog_bounded', 2, {'c1': [('send', A, 'ctxstop:1'), ('send', A, 'a2')], 'c2': [('call', A, 'b1')]}, tag='t')
     add('halt_and_await', None, {'c1': [('clone', A, 'a2'), ('send', A, 'a1'), ('halt', 'a2')], 'c2': [('await', A)]})
     add('backpressure_bounded2_burst', 2, {'c1': [('send', A, 'a1'), ('send', A, 'a2'), ('send', A, 'a3'), ('send', A, 'a4'), ('send', A, 'a5')]}, 1, K=2)
+    # send futures created first and awaited later (`Sender::send` is a plain fn returning a boxed future; join_all(sends))
+    add('backpressure_prepared_sends', 1, {'c1': [('mk_sender', A, 's'), ('sender_send', 's', 'a1'), ('prepare_send', 's', 'a2', 'f2'), ('prepare_send', 's', 'a3', 'f3'), ('prepare_send', 's', 'a4', 'f4'),
+                                                   ('prepared_send', 'f2', 'a2'), ('prepared_send', 'f3', 'a3'), ('prepared_send', 'f4', 'a4')]}, 1, K=2)
+    add('backpressure_prepared_sends2', 2, {'c1': [('mk_sender', A, 's'), ('prepare_send', 's', 'a1', 'f1'), ('prepare_send', 's', 'a2', 'f2'), ('prepare_send', 's', 'a3', 'f3'), ('prepare_send', 's', 'a4', 'f4'),
+                                                    ('prepared_send', 'f1', 'a1'), ('prepared_send', 'f2', 'a2'), ('prepared_send', 'f3', 'a3'), ('prepared_send', 'f4', 'a4')]}, 1, K=2, tag='t')
     add('force_pileup_bounded1', 1, {'c1': [('call', A, 'a1')], 'c2': [('call', A, 'b1')], 'c3': [('call', A, 'd1'), ('stop', A)]}, 1, K=3)
     # the same families with the capacity left symbolic (n in 0..3, decided by z3 at every comparison)
     add('fifo_mixed_sym', 'sym', {'c1': [('send', A, 'a1'), ('call', A, 'a2')], 'c2': [('send', A, 'b1')]}, 1)
@@ -154,6 +159,8 @@ def mailbox_programs(tier):
     add('children_tree_mid_broadcasts', None, {'c1': [('call', 'c1', 'bcast:1'), ('call', A, 'bcast:2'), ('drop', 'c1'), ('stop', A)]}, children=(('c1', R, True), ('c2', R, False, 'c1'), ('c3', R, False)), K=1)
     add('children_tree_root_killed', None, {'c1': [('call', A, 'bcast:1'), ('ping', A)]}, children=(('c1', R, False), ('c2', AC, False, 'c1')), K=1, faults=1, tag='t')
     add('children_tree_mid_panics', None, {'c1': [('call', 'c1', 'panic:1'), ('call', A, 'bcast:1'), ('stop', A)]}, children=(('c1', R, True), ('c2', R, False, 'c1'), ('c3', R, False)), K=1, tag='t')
+    # one child registered twice by its parent, under `()` and under M: it hears both kinds of broadcast, once each
+    add('children_registered_twice', None, {'c1': [('call', A, 'bcastu:1'), ('call', A, 'bcast:2'), ('drop', A)]}, children=(('c1', 'both', False), ('c2', R, False)), K=1)
     add('children_kept_outside', None, {'c1': [('stop', A), ('call', 'c1', 'x1'), ('drop', 'c1')]}, children=(('c1', AC, True),), K=2)
     # broker (C09)
     add('broker_two_pubs', None, {'pub': [('ping', 's1'), ('publish', 'p1'), ('publish', 'p2')]}, broker=dict(nactors=2, subscribers=(1,)), K=1, max_steps=80)
